@@ -4,7 +4,9 @@ pub mod c03;
 pub mod c04;
 pub mod c05;
 pub mod c07;
+pub mod c08;
 pub mod c09;
+pub mod c10;
 pub mod c11;
 pub mod c12;
 pub mod c13;
@@ -24,7 +26,9 @@ pub fn dispatch(args: &Args, rep: &mut Report) -> bool {
         "c05tcp" => tcp::run(args, rep),
         "serve" => tcp::serve(args),
         "c07" => c07::run(args, rep),
+        "c08" => c08::run(args, rep),
         "c09" => c09::run(args, rep),
+        "c10" => c10::run(args, rep),
         "c11" => c11::run(args, rep),
         "c12" => c12::run(args, rep),
         "c13" => c13::run(args, rep),
